@@ -246,3 +246,202 @@ Example C12_example_float :
     map snd std = [[0%float]; [3.625%float]] /\ nth 1 (map snd ff) [] = [3.625%float] /\
     nth 1 (map snd fr) [] = [3.625%float] /\ nth 3 (map snd fx) [] = [3.625%float].
 Proof. eexists. split; [vm_compute; reflexivity|]. vm_compute. repeat split. Qed.
+(* ================================================================================================== *)
+(* agent-modules: feed-forward networks WITH modules (control nodes)                                    *)
+(* ================================================================================================== *)
+(* Models: model/NetMod.v (Network.ActivateSteps incl. the control-node loop), model/FastMod.v (forwardStep incl. the
+   module loop, FastNetworkSolver's translation of control nodes); proofs: proofs/ModSpecC12.v, ModSpecC12Fast.v,
+   ModSpecC12Topo.v; correspondence of the module semantics: cases/ModCases.v (harness/c13_mod.go, run by ./check C13,
+   which also compares both real solvers with a one-pass evaluation on random feed-forward modular networks).
+   Vocabulary: [mnet R] = a network and its control nodes (activation type, positions of the InNodes of the incoming
+   links, positions of the OutNodes of the outgoing links); [mout c] the neuron the control node c writes;
+   [mract mknown mf] an arbitrary module-activator table (one output per registered type); [mtopo n f mf dp x] the
+   one-pass evaluation: a sensor carries its loaded value, the output of a module mf(type)(values of its inputs), any
+   other neuron f(type)(sum of weight * source).
+   "Enough steps" with modules: k >= dp o for every output o, for ANY dp with dp source < dp p on the links into
+   ordinary neurons and 1 <= dp (mout c), dp input <= dp (mout c) for every module: a module costs no step of its own
+   (both solvers run the modules inside the pass, on the values of that pass).  Counting a control node as one hop, as
+   Network.maxActivationDepthModular does, gives such a dp, so that depth is always enough.
+   Premises specific to modules: one outgoing link per control node, into a neuron no other control node writes; module
+   inputs are neurons; control nodes listed in dependency order.  Each is needed:
+   - a module fed directly by a SENSOR: the two solvers disagree for every number of steps (C12_mod_example_sensor_input:
+     the fast solver reads neuronSignalsBeingProcessed, which is 0 for sensors) - a defect of the fast solver;
+   - control nodes out of dependency order: both solvers feed the later-listed module's relay neuron's own activation
+     to the earlier-listed one (they still agree with each other, harness family "reversed-chain");
+   - two or zero outgoing links: the Network returns an error, the fast solver panics / silently ignores (C13 cases). *)
+From NeatModel Require Import NetMod FastMod ModSpecC12 ModSpecC12Fast ModSpecC12Topo ModCases.
+Open Scope nat_scope.
+
+Theorem C12_mod_solvers_agree :
+  forall (n : mnet R) (known : Z -> bool) (f : Z -> R -> R) (mknown : Z -> bool) (mf : Z -> list R -> R) (dp : nat -> nat),
+    mnet_ok n = true ->
+    NoDup (outputs (m_net n)) ->
+    (forall o, In o (outputs (m_net n)) <-> o < nnodes (m_net n) /\ is_output (role_at (m_net n) o) = true) ->
+    inputs (m_net n) = positions_with (m_net n) is_sensor ->
+    (forall p l, p < nnodes (m_net n) -> In l (nd_in (node_at (m_net n) p)) -> l_td l = false) ->
+    (* modules: one outgoing link, into a neuron; inputs are neurons; distinct targets; dependency order *)
+    (forall c, In c (m_ctrl n) -> cn_out c = [mout c]) ->
+    (forall c, In c (m_ctrl n) -> neuronb (m_net n) (mout c) = true) ->
+    (forall c i, In c (m_ctrl n) -> In i (cn_in c) -> neuronb (m_net n) i = true) ->
+    NoDup (mouts (m_ctrl n)) ->
+    ordered (m_ctrl n) ->
+    (* every neuron that no module writes has incoming links, from nodes of smaller depth *)
+    (forall p, p < nnodes (m_net n) -> neuronb (m_net n) p = true -> ~ In p (mouts (m_ctrl n)) ->
+       nd_in (node_at (m_net n) p) <> []) ->
+    (forall p l, p < nnodes (m_net n) -> neuronb (m_net n) p = true -> ~ In p (mouts (m_ctrl n)) ->
+       In l (nd_in (node_at (m_net n) p)) -> dp (l_src l) < dp p) ->
+    (forall c, In c (m_ctrl n) -> 1 <= dp (mout c) /\ forall i, In i (cn_in c) -> dp i <= dp (mout c)) ->
+    (forall p, p < nnodes (m_net n) -> neuronb (m_net n) p = true -> known (nd_act (node_at (m_net n) p)) = true) ->
+    (forall c, In c (m_ctrl n) -> mknown (cn_act c) = true) ->
+    forall x : list R, length x = length (positions_with (m_net n) is_input) ->
+    forall k : Z, (1 <= k)%Z -> (forall o, In o (outputs (m_net n)) -> (Z.of_nat (dp o) <= k)%Z) ->
+    (* whenever the depth also increases strictly through the modules the one-pass evaluation is a solution ... *)
+    (forall c i, In c (m_ctrl n) -> In i (cn_in c) -> dp i < dp (mout c)) ->
+    exists st1 st2 fx t1 t2 r,
+      mstd_load Rnum n x (mstd_init Rnum n) = (st1, Ok true) /\
+      mstd_forward Rnum (ract known f) (mract mknown mf) n k st1 = (st2, Ok true) /\
+      fast_of_net_mod Rnum n = Ok fx /\
+      fast_load Rnum (fx_net fx) x (mfast_init Rnum fx) = (t1, Ok true) /\
+      mfast_forward Rnum (ract known f) (mract mknown mf) fx k t1 = (t2, Ok r) /\
+      mstd_outputs Rnum n st2 = mfast_outputs Rnum fx t2 /\
+      mstd_outputs Rnum n st2 = mtopo n f mf dp x.
+Proof. exact mc12_agree. Qed.
+Print Assumptions C12_mod_solvers_agree.
+
+(* ... and in general (depth possibly constant through a module): every solution v of the node equations with the loaded
+   sensor values is what both solvers return *)
+Theorem C12_mod_solvers_return_the_solution :
+  forall (n : mnet R) (known : Z -> bool) (f : Z -> R -> R) (mknown : Z -> bool) (mf : Z -> list R -> R) (dp : nat -> nat),
+    mnet_ok n = true ->
+    NoDup (outputs (m_net n)) ->
+    (forall o, In o (outputs (m_net n)) <-> o < nnodes (m_net n) /\ is_output (role_at (m_net n) o) = true) ->
+    inputs (m_net n) = positions_with (m_net n) is_sensor ->
+    (forall p l, p < nnodes (m_net n) -> In l (nd_in (node_at (m_net n) p)) -> l_td l = false) ->
+    (forall c, In c (m_ctrl n) -> cn_out c = [mout c]) ->
+    (forall c, In c (m_ctrl n) -> neuronb (m_net n) (mout c) = true) ->
+    (forall c i, In c (m_ctrl n) -> In i (cn_in c) -> neuronb (m_net n) i = true) ->
+    NoDup (mouts (m_ctrl n)) ->
+    ordered (m_ctrl n) ->
+    (forall p, p < nnodes (m_net n) -> neuronb (m_net n) p = true -> ~ In p (mouts (m_ctrl n)) ->
+       nd_in (node_at (m_net n) p) <> []) ->
+    (forall p l, p < nnodes (m_net n) -> neuronb (m_net n) p = true -> ~ In p (mouts (m_ctrl n)) ->
+       In l (nd_in (node_at (m_net n) p)) -> dp (l_src l) < dp p) ->
+    (forall c, In c (m_ctrl n) -> 1 <= dp (mout c) /\ forall i, In i (cn_in c) -> dp i <= dp (mout c)) ->
+    (forall p, p < nnodes (m_net n) -> neuronb (m_net n) p = true -> known (nd_act (node_at (m_net n) p)) = true) ->
+    (forall c, In c (m_ctrl n) -> mknown (cn_act c) = true) ->
+    forall x : list R, length x = length (positions_with (m_net n) is_input) ->
+    forall k : Z, (1 <= k)%Z -> (forall o, In o (outputs (m_net n)) -> (Z.of_nat (dp o) <= k)%Z) ->
+    forall v : nat -> R,
+      (forall p, p < nnodes (m_net n) -> neuronb (m_net n) p = true -> ~ In p (mouts (m_ctrl n)) ->
+         v p = f (nd_act (node_at (m_net n) p)) (wsum v (nd_in (node_at (m_net n) p)))) ->
+      (forall c, In c (m_ctrl n) -> v (mout c) = mf (cn_act c) (map v (cn_in c))) ->
+      (forall p, p < nnodes (m_net n) -> is_bias (role_at (m_net n) p) = true -> v p = 1%R) ->
+      (forall i, i < length (positions_with (m_net n) is_input) ->
+         v (nth i (positions_with (m_net n) is_input) 0) = nth i x 0%R) ->
+      exists st1 st2 fx t1 t2 r,
+        mstd_load Rnum n x (mstd_init Rnum n) = (st1, Ok true) /\
+        mstd_forward Rnum (ract known f) (mract mknown mf) n k st1 = (st2, Ok true) /\
+        fast_of_net_mod Rnum n = Ok fx /\
+        fast_load Rnum (fx_net fx) x (mfast_init Rnum fx) = (t1, Ok true) /\
+        mfast_forward Rnum (ract known f) (mract mknown mf) fx k t1 = (t2, Ok r) /\
+        mstd_outputs Rnum n st2 = mfast_outputs Rnum fx t2 /\
+        mstd_outputs Rnum n st2 = map v (outputs (m_net n)).
+Proof.
+  intros n known f mknown mf dp H1 H2 H3 H4 H5 H6 H7 H8 H9 H10 H11 H12 H13 H14 H15 x Hx k Hk Hd v S1 S2 V1 V2.
+  exact (mc12_any_solution n known f mknown mf dp H1 H2 H3 H4 H5 H6 H7 H8 H9 H10 H11 H12 H13 H14 H15 x Hx k Hk Hd v
+           (conj S1 S2) (conj V1 V2)).
+Qed.
+Print Assumptions C12_mod_solvers_return_the_solution.
+
+(* ---- non-vacuity over the reals: inputs 0, 1; hidden 2 <- 0, 3 <- 1; MULTIPLY (2, 3) -> relay 4; output 5 <- 4 ---- *)
+Definition ex12m : mnet R :=
+  mkMnet (mkNet [mkNode Input 17 []; mkNode Input 17 [];
+                 mkNode Hidden 14 [mkLink 0 2%R false]; mkNode Hidden 14 [mkLink 1 1%R false];
+                 mkNode Hidden 17 []; mkNode Output 14 [mkLink 4 1.5%R false]]
+                [0; 1] [5])
+         [mkCnode 21 [2; 3] [4]].
+Definition ex12m_dp (p : nat) : nat := match p with 2 | 3 => 1 | 4 => 2 | 5 => 3 | _ => 0 end.
+
+Example C12_mod_example_hypotheses :
+  forall (f : Z -> R -> R) (mf : Z -> list R -> R) (a b : R),
+  exists st1 st2 fx t1 t2 r,
+    mstd_load Rnum ex12m [a; b] (mstd_init Rnum ex12m) = (st1, Ok true) /\
+    mstd_forward Rnum (ract (fun _ => true) f) (mract (fun _ => true) mf) ex12m 3 st1 = (st2, Ok true) /\
+    fast_of_net_mod Rnum ex12m = Ok fx /\
+    fast_load Rnum (fx_net fx) [a; b] (mfast_init Rnum fx) = (t1, Ok true) /\
+    mfast_forward Rnum (ract (fun _ => true) f) (mract (fun _ => true) mf) fx 3 t1 = (t2, Ok r) /\
+    mstd_outputs Rnum ex12m st2 = mfast_outputs Rnum fx t2 /\
+    mstd_outputs Rnum ex12m st2 = mtopo ex12m f mf ex12m_dp [a; b].
+Proof.
+  intros f mf a b.
+  assert (HN : nnodes (m_net ex12m) = 6) by reflexivity.
+  assert (Hin : forall p, nd_in (node_at (m_net ex12m) p) =
+                          match p with
+                          | 2 => [mkLink 0 2%R false] | 3 => [mkLink 1 1%R false] | 5 => [mkLink 4 1.5%R false]
+                          | _ => [] end).
+  { intros p. destruct p as [|[|[|[|[|[|[|p]]]]]]]; reflexivity. }
+  assert (Hrole : forall p, role_at (m_net ex12m) p = match p with 0 | 1 => Input | 5 => Output | _ => Hidden end).
+  { intros p. destruct p as [|[|[|[|[|[|[|p]]]]]]]; reflexivity. }
+  assert (Hc : forall c, In c (m_ctrl ex12m) -> c = mkCnode 21 [2; 3] [4]) by (intros c [<-|[]]; reflexivity).
+  apply (C12_mod_solvers_agree ex12m (fun _ => true) f (fun _ => true) mf ex12m_dp).
+  - reflexivity.
+  - repeat constructor; simpl; tauto.
+  - intros o. rewrite HN, Hrole. simpl. split.
+    + intros [<-|[]]. split; [lia|reflexivity].
+    + intros [Ho Hr]. destruct o as [|[|[|[|[|[|o]]]]]]; simpl in *; try discriminate; try lia; auto.
+  - reflexivity.
+  - intros p l Hp Hl. rewrite Hin in Hl. destruct p as [|[|[|[|[|[|p]]]]]]; simpl in Hl; try tauto;
+      repeat (destruct Hl as [<-|Hl]; [reflexivity|]); destruct Hl.
+  - intros c H. rewrite (Hc c H). reflexivity.
+  - intros c H. rewrite (Hc c H). reflexivity.
+  - intros c i H Hi. rewrite (Hc c H) in Hi. simpl in Hi. destruct Hi as [<-|[<-|[]]]; reflexivity.
+  - repeat constructor; simpl; tauto.
+  - simpl. split; [|exact I]. intros i [<-|[<-|[]]]; simpl; intros [E|[]]; discriminate.
+  - intros p Hp Hn Hm. rewrite Hin. unfold neuronb in Hn. rewrite Hrole in Hn. rewrite HN in Hp.
+    destruct p as [|[|[|[|[|[|p]]]]]]; simpl in *; try discriminate; try lia; try tauto.
+  - intros p l Hp Hn Hm Hl. rewrite Hin in Hl. unfold neuronb in Hn. rewrite Hrole in Hn. rewrite HN in Hp.
+    destruct p as [|[|[|[|[|[|p]]]]]]; simpl in *; try discriminate; try lia; try tauto;
+      destruct Hl as [<-|[]]; simpl; lia.
+  - intros c H. rewrite (Hc c H). simpl. split; [lia|]. intros i [<-|[<-|[]]]; simpl; lia.
+  - reflexivity.
+  - reflexivity.
+  - reflexivity.
+  - lia.
+  - intros o [<-|[]]. simpl. lia.
+  - intros c i H Hi. rewrite (Hc c H) in Hi. rewrite (Hc c H). simpl in Hi. destruct Hi as [<-|[<-|[]]]; simpl; lia.
+Qed.
+
+(* ---- the same on the executable binary64 instance, and the case outside the premises: a module fed by sensors ---- *)
+Definition ex12mf : mnet float :=
+  mkMnet (mkNet [mkNode Input 17 []; mkNode Input 17 []; mkNode Bias 17 [];
+                 mkNode Hidden 14 [mkLink 0 2%float false; mkLink 2 0.5%float false];
+                 mkNode Hidden 14 [mkLink 1 1%float false; mkLink 2 1%float false];
+                 mkNode Hidden 17 []; mkNode Hidden 17 [];
+                 mkNode Output 14 [mkLink 5 1.5%float false; mkLink 6 1%float false]]
+                [0; 1; 2] [7])
+         [mkCnode 21 [3; 4] [5]; mkCnode 22 [5; 3] [6]].
+
+Example C12_mod_example_float :
+  exists fx, fast_of_net_mod F64num ex12mf = Ok fx /\
+    map snd (mstd_trace F64num (C12Cases.fact []) fmact ex12mf (mstd_init F64num ex12mf) [OLoad [2%float; 3%float]; OForward 3])
+      = [[0%float]; [45%float]] /\
+    map snd (mfast_trace F64num (C12Cases.fact []) fmact fx (mfast_init F64num fx) [OLoad [2%float; 3%float]; OForward 3])
+      = [[0%float]; [45%float]].
+Proof. eexists. split; [vm_compute; reflexivity|]. vm_compute. split; reflexivity. Qed.
+
+(* FINDING (confirmed on the real code, harness family "sensor-input"): inputs 0, 1; MULTIPLY (0, 1) -> relay 2;
+   output 3 <- 2.  Network: 3 * 5 = 15.  Fast solver: 0, for every number of steps: its module loop reads
+   neuronSignalsBeingProcessed, which holds nothing for sensor indices. *)
+Definition ex12m_sensor : mnet float :=
+  mkMnet (mkNet [mkNode Input 17 []; mkNode Input 17 []; mkNode Hidden 17 []; mkNode Output 14 [mkLink 2 1%float false]]
+                [0; 1] [3])
+         [mkCnode 21 [0; 1] [2]].
+
+Example C12_mod_example_sensor_input :
+  exists fx, fast_of_net_mod F64num ex12m_sensor = Ok fx /\
+    map snd (mstd_trace F64num (C12Cases.fact []) fmact ex12m_sensor (mstd_init F64num ex12m_sensor)
+               [OLoad [3%float; 5%float]; OForward 3; OForward 5])
+      = [[0%float]; [15%float]; [15%float]] /\
+    map snd (mfast_trace F64num (C12Cases.fact []) fmact fx (mfast_init F64num fx) [OLoad [3%float; 5%float]; OForward 3; OForward 5])
+      = [[0%float]; [0%float]; [0%float]].
+Proof. eexists. split; [vm_compute; reflexivity|]. vm_compute. split; reflexivity. Qed.
